@@ -208,9 +208,12 @@ fn main() {
     let outcome = match std::panic::catch_unwind(std::panic::AssertUnwindSafe(run)) {
         Ok(o) => o,
         Err(_) => {
-            eprintln!("MACHINERY-ERROR property={} engine panicked", id);
-            core::cleanup_scratch();
-            std::process::exit(2);
+            // violations recorded before the engine failed are still reported (they decide the
+            // exit code); the failure itself is a machinery error
+            ctx.machinery_error("engine panicked".to_string());
+            let mut o = core::Outcome::new("other");
+            o.set("exhaustive", serde_json::json!(false));
+            o
         }
     };
     let code = core::finish(&ctx, outcome);
